@@ -528,6 +528,9 @@ func runC09(r *core.Run) {
 				if firstDrift == "" {
 					firstDrift = t.Drift
 				}
+				if d := os.Getenv("VERIF_DUMP"); d != "" {
+					writeFile(filepath.Join(d, fmt.Sprintf("c09drift_%d.json", drift)), core.JSON(map[string]interface{}{"drift": t.Drift, "behaviour": b, "events": t.Events}))
+				}
 			}
 			batch = append(batch, t)
 			if drift > 40 {
